@@ -555,6 +555,26 @@ class C13(PropBase):
             toks.append("T=%d:%d:%s:%s" % (t + 1, sb, hx(stack), ",".join(regs)))
         return " ".join(toks)
 
+    def unloaded_u_case(self, rng):
+        """U: 1..7 unloaded modules (names from a small pool, so that one name occurs several times; bases close together, so that
+        they overlap; sizes incl. 0 and a range that overflows u64) and 1..4 instruction addresses on and around the range ends;
+        model = C13.Unloaded.frame_offsets with the overlapping modules visited in reverse"""
+        pool = ["gone.dll", "old.so", "a", "b", "Zed.dll", "plugin_v2.so", "a.dll", "B"]
+        mods = []
+        top = rng.chance(1, 8)
+        for _ in range(rng.range(1, 7)):
+            base = 0x700000 + 0x800 * rng.below(6) if not (top and rng.chance(1, 2)) else U64 - 0xfff - 0x100 * rng.below(4)
+            size = rng.choice([0, 1, 0x10, 0x800, 0x1000, 0x1800, 0x2000, 0x4000, 0xffffffff])
+            mods.append((base, size, rng.choice(pool)))
+        if rng.chance(1, 4):
+            mods.append(mods[rng.below(len(mods))])          # an exact duplicate: one offset, listed once
+        addrs = []
+        for _ in range(rng.range(1, 4)):
+            b, sz, _n = mods[rng.below(len(mods))]
+            a = rng.choice([b, b + sz - 1, b + sz, b + 1, b + rng.below(max(1, min(sz, 0x4000))), b - 1, 0x700000 + rng.below(0x5000)])
+            addrs.append(max(0, min(U64, a)))
+        return "U %s %s" % (",".join(map(str, addrs)), ";".join("%d:%d:%s" % (b, sz, hx(n.encode())) for b, sz, n in mods))
+
     def adaptive_case(self, rng):
         """A: 2..5 adaptive walks (decision trees of depth <= 4 over 2..5 modules: the next module depends on whether the last
         lookup found symbols) on ONE real Symbolizer with a scripted supplier (0..3 suspensions, all five outcomes), polled in
@@ -734,9 +754,14 @@ class C13(PropBase):
                 c = rng.choice(["a", "b", "B", "ab", "a0", "Z", "cert", "Cert", "z9", "a_b", "a-b", "aa", "0"]) + rng.choice(["", "", "1", "x"])
                 if c not in names:
                     names.append(c)
+            if rng.chance(1, 3):
+                names.insert(rng.below(len(names) + 1), rng.choice(names))     # a certificate name twice: the later member replaces the earlier
             certs = ",".join("%s:%s" % (c, "+".join(rng.choice(mods + ["other"]) for _ in range(rng.range(1, 3)))) for c in names)
             cases.append("E %s %s" % (certs, ",".join(mods)))
         dist["E_cert_subjects"] = n_e
+        for _ in range(n_e):
+            cases.append(self.unloaded_u_case(rng))
+        dist["U_unloaded_module_offsets"] = n_e
         # C03's structured generator (without the deep-stack theme: 24 runs per case)
         themes = ["plain", "symbols", "symbols", "symbols", "limits", "guard", "instr", "overlap", "modules", "exc"]
         k = 0
@@ -798,7 +823,7 @@ class C13(PropBase):
     def oracle(self, case, ans, profile):
         if ans.startswith("P;;"):
             return "panic or hang while processing: " + ans[3:240]
-        if case[:2] in ("R ", "E ", "L ", "Q ", "A ", "P "):
+        if case[:2] in ("R ", "E ", "L ", "Q ", "A ", "P ", "U "):
             return None if ans[:1] == case[0] else "unparseable answer " + ans[:80]
         d = dict(t.split("=", 1) for t in ans.split() if "=" in t)
         if "n" not in d:
@@ -822,7 +847,7 @@ class C13(PropBase):
         return msg
 
     def nontrivial(self, case, ans):
-        if case[:2] in ("R ", "E ", "L ", "Q ", "A ", "P "):
+        if case[:2] in ("R ", "E ", "L ", "Q ", "A ", "P ", "U "):
             return len(ans) > 2
         return " thr=0 " not in ans and ans.startswith("n=")
 
